@@ -23,7 +23,9 @@ PROBES = {
     "LevelDistribution::merge": "probe_level_merge",
     "dlt_message_intern": "probe_dlt_message_intern",
     "dlt_consume_msg": "probe_consume_msg",
-    "skip_storage_header": "probe_skip_storage_header",
+    "skip_storage_header": "probe_consume_msg",
+    "Message::new": "probe_message_new",
+    "dlt_message": "probe_dlt_message_intern",
 }
 
 
